@@ -19,6 +19,8 @@ import (
 	"fmt"
 	"os"
 	"path/filepath"
+
+	"github.com/versity/versitygw/verifhook"
 )
 
 // SideCar is a metadata storer that uses sidecar files to store metadata.
@@ -45,6 +47,7 @@ func NewSideCar(dir string) (SideCar, error) {
 
 // RetrieveAttribute retrieves the value of a specific attribute for an object or a bucket.
 func (s SideCar) RetrieveAttribute(_ *os.File, bucket, object, attribute string) ([]byte, error) {
+	verifhook.At("meta.get", bucket, object, attribute)
 	metadir := filepath.Join(s.dir, bucket, object, sidecarmeta)
 	if object == "" {
 		metadir = filepath.Join(s.dir, bucket, sidecarmeta)
@@ -64,6 +67,7 @@ func (s SideCar) RetrieveAttribute(_ *os.File, bucket, object, attribute string)
 
 // StoreAttribute stores the value of a specific attribute for an object or a bucket.
 func (s SideCar) StoreAttribute(_ *os.File, bucket, object, attribute string, value []byte) error {
+	verifhook.At("meta.set", bucket, object, attribute)
 	metadir := filepath.Join(s.dir, bucket, object, sidecarmeta)
 	if object == "" {
 		metadir = filepath.Join(s.dir, bucket, sidecarmeta)
@@ -84,6 +88,7 @@ func (s SideCar) StoreAttribute(_ *os.File, bucket, object, attribute string, va
 
 // DeleteAttribute removes the value of a specific attribute for an object or a bucket.
 func (s SideCar) DeleteAttribute(bucket, object, attribute string) error {
+	verifhook.At("meta.del", bucket, object, attribute)
 	metadir := filepath.Join(s.dir, bucket, object, sidecarmeta)
 	if object == "" {
 		metadir = filepath.Join(s.dir, bucket, sidecarmeta)
@@ -126,6 +131,7 @@ func (s SideCar) ListAttributes(bucket, object string) ([]string, error) {
 
 // DeleteAttributes removes all attributes for an object or a bucket.
 func (s SideCar) DeleteAttributes(bucket, object string) error {
+	verifhook.At("meta.delall", bucket, object)
 	metadir := filepath.Join(s.dir, bucket, object, sidecarmeta)
 	if object == "" {
 		metadir = filepath.Join(s.dir, bucket, sidecarmeta)
